@@ -9,8 +9,16 @@ the ground truth the property speaks about:
   constraint-assigned inputs of anonymous components) with its byte range and
   the set of signal keys it mentions.
 
-Everything is ASCII, so byte offsets are string offsets.  The generator knows
-nothing about the IR: keys are built from the emitted text only.
+Offsets are BYTE offsets of the UTF-8 text (the Writer counts encoded bytes;
+comments may hold non-ASCII characters, everything outside comments is ASCII).
+The generator knows nothing about the IR: keys are built from the emitted text
+only.  "A constraint statement mentions the signal (name, access)" is decided
+here as an OCCURRENCE in the written statement: every signal reference the
+statement contains, wherever it stands - operand, left-hand side, or inside an
+index expression of another reference (`t[s] === y` mentions `t[s]` and `s`;
+`c.in1[s] <== e` mentions `c.in1[s]` and `s`) - is recorded with its own
+(name, access text).  `Gen.inside` maps a key to the keys occurring inside its
+index expressions; it is a function of the key text alone.
 
 Deliberate shapes (each counted in the coverage of the check, each the only
 witness of some realistic edit):
@@ -28,7 +36,18 @@ witness of some realistic edit):
   location (and right-hand side), the witness of an assignment identity that
   forgets the location.
 * class `decl-tuple-dup-name` (known finding C08-decl-tuple-duplicate-name):
-  `signal (t, t) <-- (e1, e2)` names one signal twice."""
+  `signal (t, t) <-- (e1, e2)` names one signal twice.
+* third audit: signals, never-reassigned locals (`u0`, `u1`), `SIGNAL + 1` and
+  nested references inside index expressions, on both sides (`a0[s1] <-- e`,
+  `t[s] === y`, `c.in1[s]`, `cs[x0].out1`); signal tags on every kind of
+  declaration (`signal input {binary} x0;`, `signal {t} a0[4];`,
+  `signal {t} t3 <-- e`); a 3-dimensional signal `q0[2][2][2]`; a 2-dimensional
+  component array `cm[2][2]`; a component whose input port is an array
+  (`ca.in1[..]`); non-ASCII text (which contains `<--`) in line and block
+  comments.  `idx_mention`: `S <-- e;` followed by a constraint statement in
+  which S occurs ONLY inside an index (`A[S] === e2`, `A[S] <== e2`,
+  `ca.in1[S] <== e2`, `e2 === cs[S].out1`): the only witness of an edit that
+  stops collecting the signals read by index expressions."""
 
 NONQUAD_BIN = ["/", "\\", "%", ">>", "<<", "&", "|", "^", "<", ">", "==", "**"]
 QUAD_BIN = ["+", "-", "*"]
@@ -51,9 +70,18 @@ template Sub0() {
     signal input in1;
     in1 * in1 === in1;
 }
+template SubA() {
+    signal input in1[2];
+    signal output out;
+    out <== in1[0] * in1[1];
+}
 """
 
-SUBS = {"Sub": (["in1", "in2"], ["out"]), "Sub2": (["in1"], ["out1", "out2"]), "Sub0": (["in1"], [])}
+# comments: non-ASCII (2-, 3- and 4-byte characters), and text that looks like what the property counts
+COMMENTS_LINE = ["// \u00e9t\u00e9 s0 <-- x0;", "// \u2200 x \u2208 \U0001d53d: a0[0] <-- 1 \u00b7 x0;", "// s1 --> \u00fc"]
+COMMENTS_BLOCK = ["/* \u00e9 <-- */", "/* \u2200\U0001d53d */", "/* s0 <-- \u00df; */"]
+
+SUBS = {"Sub": (["in1", "in2"], ["out"]), "Sub2": (["in1"], ["out1", "out2"]), "Sub0": (["in1"], [])}   # anonymous calls
 
 
 class Writer:
@@ -64,7 +92,7 @@ class Writer:
     def put(self, s):
         start = self.pos
         self.parts.append(s)
-        self.pos += len(s)
+        self.pos += len(s.encode("utf-8"))
         return (start, self.pos)
 
     def text(self):
@@ -80,6 +108,7 @@ class Gen:
         self.loop_id = 0
         self.features = set()
         self.emit_known = True   # also write the shapes of the listed known-finding classes
+        self.inside = {}          # key (name, access text) -> set of keys occurring inside its index expressions
 
     # ---------------------------------------------------------------- helpers
     def ch(self, xs):
@@ -90,53 +119,81 @@ class Gen:
 
     # ---------------------------------------------------------------- expressions
     # an expression is (text, mentions) where mentions is a set of signal keys
-    def index(self, sc, dim):
-        """Index expression text and its resolved key; only constants and loop
-        variables (never reassigned inside the loop body) are used."""
+    def men(self, key):
+        """What a written reference with this key mentions: itself and every
+        signal reference inside its index expressions."""
+        return {key} | self.inside.get(key, set())
+
+    def index(self, sc, dim, depth=0):
+        """Index expression: (text, key text, set of signal keys occurring in it).
+        Constants, loop variables (never reassigned inside the loop body),
+        `i + 1`; third audit: a signal (scalar, or - one level deep - any
+        reference), `SIGNAL + 1`, a local that is never reassigned (`u0`)."""
         loops = sc["loops"]
+        r = self.rng.random()
+        if depth == 0 and r < 0.16 and sc.get("idxsigs"):
+            # a signal inside the index; a previously `<--`-assigned scalar preferred
+            cands = [k for k, _ in sc["assigned"] if k[1] == "" and not k[0].startswith("<")
+                     and any(g["name"] == k[0] for g in sc["readable"])]
+            if cands and self.p(0.5):
+                k = self.ch(cands)
+                t = k[0]
+            elif self.p(0.75):
+                g = self.ch(sc["idxsigs"])
+                t, k = g["name"], (g["name"], "")
+            else:
+                t, k = self.sig_ref(sc, self.ch(sc["readable"]), depth=1)
+            self.features.add("index-signal")
+            if self.p(0.2):
+                return "%s + 1" % t, "%s + 1" % (k[0] + k[1]), self.men(k)
+            return t, k[0] + k[1], self.men(k)
+        if depth == 0 and r < 0.24 and sc.get("ixlocals"):
+            u = self.ch(sc["ixlocals"])
+            self.features.add("index-local")
+            return u, u, set()
         if loops and self.p(0.75):
             name, lid = self.ch(loops)
             form = self.rng.randrange(4)
             if form == 0 and dim > 1:
-                return "%s + 1" % name, "%s#%d + 1" % (name, lid)
-            return name, "%s#%d" % (name, lid)
+                return "%s + 1" % name, "%s#%d + 1" % (name, lid), set()
+            return name, "%s#%d" % (name, lid), set()
         c = self.rng.randrange(dim)
-        return str(c), str(c)
+        return str(c), str(c), set()
 
-    def sig_ref(self, sc, sig):
-        """Reference to a declared signal-like thing: (text, key)."""
-        kind = sig["kind"]
-        if kind == "scalar":
-            return sig["name"], (sig["name"], "")
-        if kind == "array":
-            t, k = self.index(sc, sig["dims"][0])
-            return "%s[%s]" % (sig["name"], t), (sig["name"], "[%s]" % k)
-        if kind == "matrix":
-            t1, k1 = self.index(sc, sig["dims"][0])
-            t2, k2 = self.index(sc, sig["dims"][1])
-            return "%s[%s][%s]" % (sig["name"], t1, t2), (sig["name"], "[%s][%s]" % (k1, k2))
-        if kind == "comp":
-            port = self.ch(sig["ports"])
-            return "%s.%s" % (sig["name"], port), (sig["name"], ".%s" % port)
-        if kind == "comparr":
-            t, k = self.index(sc, sig["dims"][0])
-            port = self.ch(sig["ports"])
-            return "%s[%s].%s" % (sig["name"], t, port), (sig["name"], "[%s].%s" % (k, port))
-        raise ValueError(kind)
+    def indices(self, sc, dims, depth=0):
+        """`[i][j]..` for the given dimensions: (text, key text, mentions)."""
+        t, k, m = "", "", set()
+        for d in dims:
+            ti, ki, mi = self.index(sc, d, depth)
+            t += "[%s]" % ti
+            k += "[%s]" % ki
+            m |= mi
+        return t, k, m
+
+    def sig_ref(self, sc, sig, depth=0, port=None):
+        """Reference to a declared signal-like thing: (text, key); the keys
+        inside its indices are remembered in self.inside[key]."""
+        t, k, m = self.indices(sc, sig.get("dims", []), depth)
+        if sig["kind"] in ("comp", "comparr", "compmat"):
+            pname, pdims = port or self.ch(sig["ports"])
+            tp, kp, mp = self.indices(sc, pdims, depth)
+            t, k, m = "%s.%s%s" % (t, pname, tp), "%s.%s%s" % (k, pname, kp), m | mp
+        key = (sig["name"], k)
+        if m:
+            self.inside.setdefault(key, set()).update(m)
+        return sig["name"] + t, key
 
     def leaf(self, sc, want=None):
         r = self.rng.random()
         if want is not None and r < 0.6:
-            return want[0], {want[1]}
+            return want[0], self.men(want[1])
         if r < 0.55 and sc["readable"]:
             t, k = self.sig_ref(sc, self.ch(sc["readable"]))
-            return t, {k}
+            return t, self.men(k)
         if r < 0.65 and sc["compouts"]:
             c = self.ch(sc["compouts"])
-            if c["kind"] == "comp":
-                return "%s.%s" % (c["name"], self.ch(c["outs"])), set()
-            t, _ = self.index(sc, c["dims"][0])
-            return "%s[%s].%s" % (c["name"], t, self.ch(c["outs"])), set()
+            t, k, m = self.indices(sc, c.get("dims", []))
+            return "%s%s.%s" % (c["name"], t, self.ch(c["outs"])), set(m)
         if r < 0.75 and sc["locals"]:
             return self.ch(sc["locals"]), set()
         if r < 0.82 and sc["loops"]:
@@ -185,6 +242,12 @@ class Gen:
 
     def rec_assign(self, sc, anchor, key, form, extra=None):
         rec = {"anchor": list(anchor), "key": list(key), "form": form}
+        if key[0] in sc.get("tagged", ()):
+            rec["tagged"] = True
+        if self.inside.get(tuple(key)):
+            rec["index_signal"] = True
+        if any(u in key[1] for u in sc.get("ixlocals", ())):
+            rec["index_local"] = True
         if extra:
             rec.update(extra)
         sc["def"]["assigns"].append(rec)
@@ -192,16 +255,23 @@ class Gen:
             sc["assigned"].append((key, [l for l in sc["loops"]]))
         self.features.add(form)
 
-    def rec_constraint(self, sc, rng, mentions, form):
-        sc["def"]["constraints"].append({"range": list(rng), "mentions": sorted(list(m) for m in mentions), "form": form})
+    def rec_constraint(self, sc, rng, mentions, form, only_in_index=None):
+        rec = {"range": list(rng), "mentions": sorted(list(m) for m in mentions), "form": form}
+        if only_in_index:
+            # keys this statement mentions ONLY inside an index expression (idx_mention)
+            rec["only_in_index"] = [list(k) for k in only_in_index]
+        sc["def"]["constraints"].append(rec)
 
     def wanted(self, sc):
         """Pick a previously `<--`-assigned target whose key is expressible in
         the current scope (all its loop variables are the enclosing ones)."""
         cands = []
         cur = set(sc["loops"])
+        names = {g["name"] for g in sc["readable"]}
         for key, loops in sc["assigned"]:
-            if all(l in cur for l in loops if ("%s#%d" % l) in key[1]):
+            key = tuple(key)
+            if all(l in cur for l in loops if ("%s#%d" % l) in key[1]) and key[0] in names \
+                    and all(m[0] in names for m in self.inside.get(key, ())):
                 cands.append(key)
         if not cands or self.p(0.25):
             return None
@@ -218,7 +288,15 @@ class Gen:
         w = self.w
         r = self.rng.random()
         d = 2 if self.p(0.7) else 1
+        if self.p(0.06):
+            self.comment(sc)
         self.indent(sc)
+        if self.p(0.04):
+            w.put(self.ch(COMMENTS_BLOCK) + " ")
+            self.features.add("non-ASCII comment")
+        if self.p(0.07) and sc["depth"] < 4:
+            self.idx_mention(sc)
+            return
         if r < 0.22:                                   # T <-- E;
             t, k = self.target(sc)
             e, _ = self.expr(sc, d)
@@ -239,7 +317,7 @@ class Gen:
             else:
                 a = w.put("%s ==> %s" % (self.atom(e), t))
             w.put(";\n")
-            self.rec_constraint(sc, a, m | {k}, "cassign")
+            self.rec_constraint(sc, a, m | self.men(k), "cassign")
         elif r < 0.55:                                 # L === R;
             want = self.wanted(sc)
             l, ml = self.expr(sc, d, want=want)
@@ -282,7 +360,7 @@ class Gen:
                 if op in ("<--", "-->"):
                     self.rec_assign(sc, rg, k, "tuple")
                 else:
-                    self.rec_constraint(sc, rg, m | {k}, "tuple-cassign")
+                    self.rec_constraint(sc, rg, m | self.men(k), "tuple-cassign")
         elif r < 0.70:                                 # signal declarations with initialisers
             form = self.rng.randrange(3)
             op = self.ch(["<--", "<--", "<=="])
@@ -299,11 +377,14 @@ class Gen:
                 dupname = names[0]
                 self.features.add("decl-tuple-dup-name")
             s = w.pos
+            tg = self.tags()
+            if tg:
+                sc["tagged"].update(names)
             if form < 2 or n == 1:
-                w.put("signal " + ", ".join("%s %s %s" % (nm, op, v[0]) for nm, v in zip(names, vals)))
+                w.put("signal " + tg + ", ".join("%s %s %s" % (nm, op, v[0]) for nm, v in zip(names, vals)))
                 fname = "decl-init"
             else:
-                w.put("signal (%s) %s (%s)" % (", ".join(names), op, ", ".join(v[0] for v in vals)))
+                w.put("signal %s(%s) %s (%s)" % (tg, ", ".join(names), op, ", ".join(v[0] for v in vals)))
                 fname = "decl-tuple"
             rg = (s, w.pos)
             w.put(";\n")
@@ -379,6 +460,75 @@ class Gen:
             e, _ = self.expr(sc, 1)
             w.put("log(%s);\n" % e)
 
+    def comment(self, sc):
+        """A line comment with non-ASCII text that looks like an assignment."""
+        self.indent(sc)
+        self.w.put(self.ch(COMMENTS_LINE) + "\n")
+        self.features.add("non-ASCII comment")
+
+    def idx_mention(self, sc):
+        """`S <-- e;` then a constraint statement in which S occurs ONLY inside
+        an index expression.  The current line is already indented."""
+        w = self.w
+        scal = [g for g in sc["targets"] if g["kind"] == "scalar"]
+        arrs = [g for g in sc["readable"] if g["kind"] in ("array", "matrix", "tensor")]
+        if not scal or not arrs:
+            w.put("log(0);\n")
+            return
+        g = self.ch(scal)
+        key = (g["name"], "")
+        e, _ = self.expr(sc, 1, nonquad=True)
+        a = w.put("%s <-- %s" % (g["name"], e))
+        w.put(";\n")
+        self.rec_assign(sc, a, key, "larrow", {"idx_mention": True})
+        self.indent(sc)
+        # the reference whose index is S: an array element, an array port, an output of a component array
+        forms = ["arr-lhs-ceq", "arr-rhs-ceq"]
+        if [t for t in arrs if t in sc["targets"]]:
+            forms.append("arr-cassign")
+        ports = [c for c in sc["targets"] if c["kind"] == "comp" and any(pd for _, pd in c["ports"])]
+        if ports:
+            forms.append("port-cassign")
+        couts = [c for c in sc["compouts"] if c["kind"] == "comparr"]
+        if couts:
+            forms.append("compout-ceq")
+        form = self.ch(forms)
+        S = g["name"]
+        def elem(arr):
+            rest = "".join("[%d]" % self.rng.randrange(dd) for dd in arr["dims"][1:])
+            k = (arr["name"], "[%s]%s" % (S, rest))
+            self.inside.setdefault(k, set()).add(key)
+            return "%s[%s]%s" % (arr["name"], S, rest), k
+        e2, m2 = self.expr(sc, 1)
+        only = [key] if key not in m2 else None
+        if form in ("arr-lhs-ceq", "arr-rhs-ceq"):
+            t, k = elem(self.ch(arrs))
+            s0 = w.pos
+            w.put("%s === %s;" % ((t, self.atom(e2)) if form == "arr-lhs-ceq" else (self.atom(e2), t)))
+            self.rec_constraint(sc, (s0, w.pos), m2 | self.men(k), "ceq", only)
+            w.put("\n")
+        elif form == "arr-cassign":
+            t, k = elem(self.ch([t for t in arrs if t in sc["targets"]]))
+            a = w.put("%s <== %s" % (t, e2))
+            w.put(";\n")
+            self.rec_constraint(sc, a, m2 | self.men(k), "cassign", only)
+        elif form == "port-cassign":
+            c = self.ch(ports)
+            pname = [pn for pn, pd in c["ports"] if pd][0]
+            k = (c["name"], ".%s[%s]" % (pname, S))
+            self.inside.setdefault(k, set()).add(key)
+            a = w.put("%s.%s[%s] <== %s" % (c["name"], pname, S, e2))
+            w.put(";\n")
+            self.rec_constraint(sc, a, m2 | self.men(k), "cassign", only)
+        else:
+            c = self.ch(couts)
+            s0 = w.pos
+            w.put("%s === %s[%s].%s;" % (self.atom(e2), c["name"], S, self.ch(c["outs"])))
+            self.rec_constraint(sc, (s0, w.pos), m2 | {key}, "ceq", only)
+            w.put("\n")
+        self.features.add("idx-mention")
+        self.features.add("idx-mention:" + form)
+
     def arrow(self, sc, t, k, extra):
         """One `T <-- E;` or `E --> T;` line for the given target."""
         w = self.w
@@ -411,7 +561,7 @@ class Gen:
         known at compile time; optionally a third time in a following `if`.
         The current line is already indented."""
         w = self.w
-        arrays = [t for t in sc["targets"] if t["kind"] in ("array", "matrix", "comparr")]
+        arrays = [t for t in sc["targets"] if t["kind"] in ("array", "matrix", "tensor", "comparr", "compmat")]
         closer = None
         if not sc["loops"] and arrays and self.p(0.5):
             # build the loop here so that the element is indexed by its variable
@@ -427,14 +577,15 @@ class Gen:
             sig = self.ch(arrays)
             name, lid = sc["loops"][-1]
             it, ik = name, "%s#%d" % (name, lid)
-            if sig["kind"] == "array":
-                t, k = "%s[%s]" % (sig["name"], it), (sig["name"], "[%s]" % ik)
-            elif sig["kind"] == "matrix":
-                c = str(self.rng.randrange(sig["dims"][1]))
-                t, k = "%s[%s][%s]" % (sig["name"], it, c), (sig["name"], "[%s][%s]" % (ik, c))
-            else:
-                port = self.ch(sig["ports"])
-                t, k = "%s[%s].%s" % (sig["name"], it, port), (sig["name"], "[%s].%s" % (ik, port))
+            # the first dimension is indexed by the loop variable, the others by constants
+            rest = [str(self.rng.randrange(d)) for d in sig["dims"][1:]]
+            t = "[%s]" % it + "".join("[%s]" % c for c in rest)
+            k = "[%s]" % ik + "".join("[%s]" % c for c in rest)
+            if sig["kind"] in ("comparr", "compmat"):
+                pname, pdims = self.ch(sig["ports"])
+                pc = "".join("[%d]" % self.rng.randrange(d) for d in pdims)
+                t, k = "%s.%s%s" % (t, pname, pc), "%s.%s%s" % (k, pname, pc)
+            t, k = sig["name"] + t, (sig["name"], k)
             shape = "elem-loop"
         else:
             sig = self.ch(sc["targets"])
@@ -523,7 +674,7 @@ class Gen:
             if oop == "<--":
                 self.rec_assign(sc, rg, k, "anon-output")
             else:
-                self.rec_constraint(sc, rg, {k}, "anon-output-cassign")
+                self.rec_constraint(sc, rg, self.men(k), "anon-output-cassign")
         self.features.add("anon")
 
     def block(self, sc, budget, loop=None, tail=None):
@@ -536,6 +687,13 @@ class Gen:
             self.w.put(tail)
 
     # ---------------------------------------------------------------- definitions
+    def tags(self):
+        """`{binary} ` etc. in front of the declared names, or nothing."""
+        if not self.p(0.3):
+            return ""
+        self.features.add("signal tags")
+        return self.ch(["{binary} ", "{maxbit} ", "{binary, maxbit} ", "{t} "])
+
     def template(self, name, custom=False, parallel=False):
         """`template [custom] [parallel] NAME(..)` — the order the grammar fixes.
         Only `custom` takes a template out of the property; a `parallel`
@@ -551,30 +709,58 @@ class Gen:
               "functions": self.functions, "shadow": [], "block_signals": [], "block_locals": []}
         readable, targets, compouts = [], [], []
         for i in range(self.rng.randrange(1, 4)):
-            w.put("    signal input x%d;\n" % i)
+            w.put("    signal input %sx%d;\n" % (self.tags(), i))
             readable.append({"kind": "scalar", "name": "x%d" % i})
         if self.p(0.6):
-            w.put("    signal input xs[4];\n")
+            w.put("    signal input %sxs[4];\n" % self.tags())
             readable.append({"kind": "array", "name": "xs", "dims": [4]})
         for i in range(self.rng.randrange(1, 5)):
-            kind = self.ch(["output", "", ""])
-            w.put("    signal %s s%d;\n" % (kind, i))
-            targets.append({"kind": "scalar", "name": "s%d" % i})
+            kind = self.ch(["output ", "", ""])
+            tg = self.tags()
+            w.put("    signal %s%ss%d;\n" % (kind, tg, i))
+            targets.append({"kind": "scalar", "name": "s%d" % i, "tagged": bool(tg)})
         if self.p(0.8):
-            w.put("    signal output a0[4];\n")
-            targets.append({"kind": "array", "name": "a0", "dims": [4]})
+            tg = self.tags()
+            w.put("    signal output %sa0[4];\n" % tg)
+            targets.append({"kind": "array", "name": "a0", "dims": [4], "tagged": bool(tg)})
         if self.p(0.4):
-            w.put("    signal m0[3][3];\n")
-            targets.append({"kind": "matrix", "name": "m0", "dims": [3, 3]})
+            tg = self.tags()
+            w.put("    signal %sm0[3][3];\n" % tg)
+            targets.append({"kind": "matrix", "name": "m0", "dims": [3, 3], "tagged": bool(tg)})
+        if self.p(0.3):
+            tg = self.tags()
+            w.put("    signal %sq0[2][2][2];\n" % tg)
+            targets.append({"kind": "tensor", "name": "q0", "dims": [2, 2, 2], "tagged": bool(tg)})
+            self.features.add("3-D signal")
+        ixlocals = []
+        for i in range(self.ch([0, 1, 1, 2])):
+            # locals that are never reassigned: usable inside indices with one SSA version everywhere
+            w.put("    var u%d = %d;\n" % (i, self.rng.randrange(2)))
+            ixlocals.append("u%d" % i)
         if not custom:
             if self.p(0.6):
                 w.put("    component c0 = %sSub();\n" % ("parallel " if self.p(0.25) else ""))
-                targets.append({"kind": "comp", "name": "c0", "ports": ["in1", "in2"]})
+                targets.append({"kind": "comp", "name": "c0", "ports": [("in1", []), ("in2", [])]})
                 compouts.append({"kind": "comp", "name": "c0", "outs": ["out"]})
+            if self.p(0.3):
+                w.put("    component ca = SubA();\n")
+                targets.append({"kind": "comp", "name": "ca", "ports": [("in1", [2])]})
+                compouts.append({"kind": "comp", "name": "ca", "outs": ["out"]})
+                self.features.add("array port")
             if self.p(0.4):
                 w.put("    component cs[3];\n    for (var q = 0; q < 3; q++) {\n        cs[q] = Sub2();\n    }\n")
-                targets.append({"kind": "comparr", "name": "cs", "dims": [3], "ports": ["in1"]})
+                targets.append({"kind": "comparr", "name": "cs", "dims": [3], "ports": [("in1", [])]})
                 compouts.append({"kind": "comparr", "name": "cs", "dims": [3], "outs": ["out1", "out2"]})
+            if self.p(0.25):
+                w.put("    component cm[2][2];\n    for (var q = 0; q < 2; q++) {\n        for (var r = 0; r < 2; r++) {\n"
+                      "            cm[q][r] = %s();\n        }\n    }\n" % self.ch(["Sub2", "SubA"]))
+                isa = w.parts[-1].find("SubA") >= 0
+                targets.append({"kind": "compmat", "name": "cm", "dims": [2, 2], "ports": [("in1", [2] if isa else [])]})
+                compouts.append({"kind": "compmat", "name": "cm", "dims": [2, 2], "outs": ["out"] if isa else ["out1", "out2"]})
+                self.features.add("2-D component array")
+        sc["ixlocals"] = ixlocals
+        sc["tagged"] = {g["name"] for g in targets if g.get("tagged")}
+        sc["idxsigs"] = [g for g in readable + targets if g["kind"] == "scalar"]
         sc["readable"] = readable + targets
         sc["targets"] = targets
         sc["compouts"] = compouts
@@ -605,7 +791,7 @@ class Gen:
             self.w.put("pragma custom_templates;\n")
             self.features.add("pragma-custom-templates")
         self.w.put(rest)
-        for nm in ("Sub", "Sub2", "Sub0"):
+        for nm in ("Sub", "Sub2", "Sub0", "SubA"):
             self.defs.append({"kind": "template", "name": nm, "assigns": [], "constraints": []})
         # the constraints of the prelude are irrelevant (no `<--` there)
         self.functions = []
